@@ -174,6 +174,17 @@ class Ctx:
                         txt = re.sub(r"\(\*.*?\*\)", "", txt, flags=re.S)
                         for m in FORBIDDEN.finditer(txt):
                             bad.append("%s: %s" % (os.path.join(root, fn), m.group(0)))
+                        # a Variable / Hypothesis / Context outside a Section declares an axiom
+                        stack = []
+                        for m in re.finditer(r"^\s*(Section|End|Variables?|Hypothes[ie]s|Context)\b\s*([A-Za-z0-9_']*)[^.]*\.", txt, flags=re.M):
+                            kw, name = m.group(1), m.group(2)
+                            if kw == "Section":
+                                stack.append(name)
+                            elif kw == "End":
+                                if stack and stack[-1] == name:
+                                    stack.pop()
+                            elif not stack:
+                                bad.append("%s: %s outside a Section" % (os.path.join(root, fn), kw))
         return bad
 
     def theorems(self, relfile):
